@@ -370,34 +370,99 @@ func runC11(c *Ctx) {
 		mapShared, _ := constantInt(p.extPkg("syscall").Scope().Lookup("MAP_SHARED").(*types.Const).Val())
 		sysMmap, _ := constantInt(p.extPkg("syscall").Scope().Lookup("SYS_MMAP").(*types.Const).Val())
 		all := withClosures(fn)
-		// the mapping routine may also be a named helper a refactoring split off the constructor
+		// parts of the construction may sit in helpers a refactoring split off the constructor (the mapping routine, the
+		// creation of the backing file, the whole mirroring step as a method): they and their closures are searched too
 		helperSites := map[*ssa.Function][]*ssa.Call{}
 		for _, g := range withClosures(fn) {
 			for _, hc := range allCalls(g) {
 				if h := hc.Call.StaticCallee(); isHelperOf(fn, h) && !knownOnPinnedTree(h) {
 					if len(helperSites[h]) == 0 {
-						all = append(all, h)
+						all = append(all, withClosures(h)...)
 					}
 					helperSites[h] = append(helperSites[h], hc)
 				}
 			}
 		}
-		// argsFor: the values v stands for in the constructor: v itself, or for a parameter of such a helper the
-		// argument at each of its call sites
-		argsFor := func(g *ssa.Function, v ssa.Value) []ssa.Value {
-			prm, isPrm := stripConv(v).(*ssa.Parameter)
-			if !isPrm || len(helperSites[g]) == 0 {
-				return []ssa.Value{v}
+		topOf := func(g *ssa.Function) *ssa.Function {
+			for g != nil && g.Parent() != nil {
+				g = g.Parent()
 			}
-			var out []ssa.Value
-			for i, q := range g.Params {
-				if q == prm {
-					for _, hc := range helperSites[g] {
-						out = append(out, hc.Call.Args[i])
-					}
+			return g
+		}
+		// isSize: v is the (rounded) size the constructor stores into the size field: in the constructor's frame a
+		// load of the same local; in a helper called after that store a load of the field itself (directly or through
+		// a local that holds nothing else), or a parameter bound to the size at every call
+		var isSize func(v ssa.Value, depth int) bool
+		isSize = func(v ssa.Value, depth int) bool {
+			v = stripConv(v)
+			if depth > 4 {
+				return false
+			}
+			for _, st := range storesTo(fn, size) {
+				if sameCellLoad(st.Val, v) {
+					return true
 				}
 			}
-			return out
+			var g *ssa.Function
+			switch x := v.(type) {
+			case *ssa.Parameter:
+				g = x.Parent()
+			case ssa.Instruction:
+				g = x.Parent()
+			}
+			h := topOf(g)
+			sites := helperSites[h]
+			if h == nil || len(sites) == 0 {
+				return false
+			}
+			if prm, isPrm := v.(*ssa.Parameter); isPrm && g == h {
+				for i, q := range h.Params {
+					if q == prm {
+						for _, hc := range sites {
+							if !isSize(hc.Call.Args[i], depth+1) {
+								return false
+							}
+						}
+						return true
+					}
+				}
+				return false
+			}
+			u, isLoad := v.(*ssa.UnOp)
+			if !isLoad || u.Op != token.MUL {
+				return false
+			}
+			if loadOfField(u, size) {
+				// the field has been set by the time the helper runs
+				for _, hc := range sites {
+					set := false
+					for _, st := range storesTo(fn, size) {
+						if dominatesInstr(st.Instr, hc) {
+							set = true
+						}
+					}
+					if !set {
+						return false
+					}
+				}
+				return true
+			}
+			if c := cellOf(u.X); c != nil {
+				n := 0
+				okAll := true
+				for _, cf := range withClosures(c.Parent()) {
+					eachInstr(cf, func(in ssa.Instruction) {
+						if st, ok := in.(*ssa.Store); ok && cellOf(st.Addr) == c {
+							n++
+							if !isSize(st.Val, depth+1) {
+								okAll = false
+							}
+						}
+					})
+				}
+				return n > 0 && okAll
+			}
+			return false
 		}
 		// size variable: parameter 0 spilled into a cell and updated
 		sizeExprs := func(v ssa.Value) string { return exprString(resolveLoadsOfCell(v), nil, 0) }
@@ -456,10 +521,8 @@ func runC11(c *Ctx) {
 				if !ok || !loadOfField(ia.X, sliceF) || isConstInt(ia.Index, 0) {
 					return
 				}
-				for _, a := range storesTo(fn, size) {
-					if sameCellLoad(a.Val, ia.Index) {
-						second = true
-					}
+				if isSize(ia.Index, 0) {
+					second = true
 				}
 			})
 		}
@@ -478,16 +541,7 @@ func runC11(c *Ctx) {
 					return
 				}
 				flags, isK := constInt(resolveLoadsOfCell(a[4]))
-				lenOK := true
-				for _, lv := range argsFor(g, a[2]) {
-					one := false
-					for _, st := range storesTo(fn, size) {
-						if sameCellLoad(st.Val, lv) {
-							one = true
-						}
-					}
-					lenOK = lenOK && one
-				}
+				lenOK := isSize(a[2], 0)
 				offOK := isConstInt(a[6], 0)
 				switch {
 				case !isK || flags != mapFixed|mapShared:
@@ -513,8 +567,15 @@ func runC11(c *Ctx) {
 				})
 			}
 			mappedIdx := map[string]int{}
+			// the function that invokes the mapping routine: the one defining the closure; for a named routine its caller
+			host := fn
+			if mapper != nil && mapper.Parent() != nil {
+				host = mapper.Parent()
+			} else if mapper != nil && len(helperSites[mapper]) > 0 {
+				host = helperSites[mapper][0].Parent()
+			}
 			if mapper != nil && mapper != fn {
-				eachInstr(fn, func(in ssa.Instruction) {
+				eachInstr(host, func(in ssa.Instruction) {
 					call, ok := in.(*ssa.Call)
 					if !ok || len(call.Call.Args) == 0 {
 						return
@@ -523,7 +584,7 @@ func runC11(c *Ctx) {
 					if (!ok || mc.Fn != mapper) && call.Call.StaticCallee() != mapper {
 						return
 					}
-					eachInstr(fn, func(x ssa.Instruction) {
+					eachInstr(host, func(x ssa.Instruction) {
 						ia, ok := x.(*ssa.IndexAddr)
 						if !ok || !loadOfField(ia.X, sliceF) {
 							return
@@ -536,7 +597,7 @@ func runC11(c *Ctx) {
 					})
 				})
 			}
-			c.check(mapper == fn || (len(mappedIdx) == 2 && mappedIdx["0"] == 1), fn, "both halves mapped", fn.Pos(), "the file is mapped once at each of the two addresses", fmt.Sprintf("the mapping routine is not invoked once with each of the two addresses (invoked for indices %v): one half of the ring keeps the anonymous memory and bytes written near the end do not appear at the start", mappedIdx))
+			c.check(mapper == host || (len(mappedIdx) == 2 && mappedIdx["0"] == 1), fn, "both halves mapped", fn.Pos(), "the file is mapped once at each of the two addresses", fmt.Sprintf("the mapping routine is not invoked once with each of the two addresses (invoked for indices %v): one half of the ring keeps the anonymous memory and bytes written near the end do not appear at the start", mappedIdx))
 		}
 		// file truncated to size
 		trunc := false
@@ -544,10 +605,8 @@ func runC11(c *Ctx) {
 			eachInstr(g, func(in ssa.Instruction) {
 				call, ok := in.(*ssa.Call)
 				if ok && call.Call.StaticCallee() != nil && call.Call.StaticCallee().Name() == "Truncate" {
-					for _, st := range storesTo(fn, size) {
-						if sameCellLoad(st.Val, call.Call.Args[1]) {
-							trunc = true
-						}
+					if isSize(call.Call.Args[1], 0) {
+						trunc = true
 					}
 				}
 			})
